@@ -37,13 +37,16 @@ def bounds(tier):
 def tasks(tier):
     out = []
     if tier == "quick":
-        durs, menu = [0, 1, 3], [1, 0, 9, "nan"]
+        durs, menu = [0, 1, 3], [1, 0, 9]
     else:
         durs, menu = [0, 1, 2, 3, 5], [1, 0, 2, 9, "nan", "inf", -1]
     for D, sl, hd in itertools.product([0, 2, 3, 4], ["call", None], [None, "call"]):
         if hd and sl is None:
             continue
-        cfg = dict(M=3, deadline=D, alphabet=["ok", "x:T", "r:R"], durs=durs, dur_free=True,
+        cfg = dict(M=3, deadline=D, ra_ticks=9,
+                   alphabet=["ok", "x:T", "r:R", "x:R+ra", "r:R+ra"] if tier == "thorough" else
+                   ["ok", "x:T", "r:R+ra"],
+                   durs=durs, dur_free=True,
                    strat_menu=menu, strat_free=True, overshoot=[0, 1, 3], over_free=True,
                    sleeper=sl, handler=hd, handler_menu=["SLEEP"], wall_jumps=True,
                    max_unknown=None)
